@@ -469,7 +469,17 @@ pub fn check_step(before: &Snap, op: &Op, after: &Snap, clip_override: Option<([
             }
             let l = after.layers.last().unwrap();
             let (crect, _) = before.clip();
-            if l.rect != crect || l.px.iter().any(|p| *p != 0) || l.opacity.to_bits() != o.to_bits() || l.blend != *b {
+            // the layer must cover exactly the on-surface pixels of the clip bounds
+            let mut same_cover = true;
+            for y in 0..h {
+                for x in 0..w {
+                    if in_rect(&l.rect, x, y) != in_rect(&crect, x, y) {
+                        same_cover = false;
+                    }
+                }
+            }
+            let area = if l.rect[2] > l.rect[0] && l.rect[3] > l.rect[1] { ((l.rect[2] - l.rect[0]) * (l.rect[3] - l.rect[1])) as usize } else { 0 };
+            if !same_cover || l.px.len() != area || l.px.iter().any(|p| *p != 0) || l.opacity.to_bits() != o.to_bits() || l.blend != *b {
                 return Err(StepViolation { kind: Kind::StateChanged, clause: "push_layer-new-layer".into(), detail: format!("new layer rect {:?} (clip bounds {:?}), nonzero pixels {}, opacity {}, blend {:?}", l.rect, crect, l.px.iter().filter(|p| **p != 0).count(), l.opacity, l.blend) });
             }
             Ok(st)
